@@ -236,6 +236,10 @@ func c08HeaderShapes() []c08hshape {
 		{name: "object", schema: gen.S{"type": "object", "properties": gen.S{"a": gen.S{"type": "integer"}, "b": gen.S{"type": "string"}}, "required": gen.Arr("a")}, good: []string{"a,1", "a,1,b,x"}, bad: []string{"b,x"}, junk: []string{"a,one", "a"}},
 		{name: "object-explode-false-written", schema: gen.S{"type": "object", "properties": gen.S{"a": gen.S{"type": "integer"}, "b": gen.S{"type": "string"}}, "required": gen.Arr("a")}, good: []string{"a,1", "a,1,b,x"}, bad: []string{"b,x"}, junk: []string{"a,one", "a", "a=1"}, explicitFalse: true},
 		{name: "array-explode-false-written", schema: gen.S{"type": "array", "items": gen.S{"type": "integer"}, "maxItems": 2.0}, good: []string{"1", "1,2"}, bad: []string{"1,2,3"}, junk: []string{"1,x"}, explicitFalse: true},
+		// read as a response: a write-only property is forbidden when present and not required when absent
+		{name: "object-with-writeOnly-property", schema: gen.S{"type": "object", "properties": gen.S{"secret": gen.S{"type": "string", "writeOnly": true}, "a": gen.S{"type": "string"}}, "required": gen.Arr("secret")}, good: []string{"a,b"}, bad: []string{"secret,s,a,b", "secret,s"}},
+		// a primitive sent as several field lines is the list of those lines, not its first line
+		{name: "integer-several-lines", schema: gen.S{"type": "integer"}, good: []string{"5"}, bad: []string{}, junk: []string{"5\nabc", "5\n6"}},
 		{name: "object-explode", schema: gen.S{"type": "object", "properties": gen.S{"a": gen.S{"type": "integer"}, "b": gen.S{"type": "string"}}, "required": gen.Arr("a")}, good: []string{"a=1", "a=1,b=x"}, bad: []string{"b=x"}, junk: []string{"a=one"}, explode: true},
 	}
 }
@@ -319,6 +323,10 @@ func c08Headers(c *core.Ctx, hi int) {
 						case "absent":
 							want = !required
 						}
+					}
+					if sh.name == "object-with-writeOnly-property" && opt.ExcludeWriteOnlyValidations {
+						c.Cover("headers", sh.name+"/write-only checks excluded: no verdict")
+						continue
 					}
 					c.Cover("headers", sh.name+"/"+cs.class)
 					w.Want = fmt.Sprintf("accept=%v", want)
